@@ -4,7 +4,11 @@ import (
 	"encoding/hex"
 	"fmt"
 	"math/rand"
+	"os"
+	"os/exec"
+	"sort"
 	"strings"
+	"sync"
 	"unicode/utf8"
 
 	"github.com/sivchari/govalid/validation/validationhelper"
@@ -71,6 +75,7 @@ type emitter struct {
 	n     int
 	order []string // inputs in generation order (for the second pass of `rec-twice`)
 	first map[string]string
+	noEval bool // only collect the inputs (a child process evaluates them in another order)
 }
 
 func (e *emitter) emit(s string) {
@@ -79,6 +84,10 @@ func (e *emitter) emit(s string) {
 	}
 	e.seen[s] = true
 	e.n++
+	if e.noEval {
+		e.order = append(e.order, s)
+		return
+	}
 	r := implRec(e.fn, s)
 	if e.first != nil {
 		e.order = append(e.order, s)
@@ -103,7 +112,96 @@ func recTwice(fn, tier string, seed int64) {
 			fmt.Fprintf(out, "%s\t%s\t%s\t%s\n", fn, hx(s), e.first[s], r)
 		}
 	}
+	// third evaluation in a FRESH process, in reverse generation order: a recognizer that learns from its first call for
+	// some spelling (and answers differently afterwards) meets a different "first call" there
+	if self, err := os.Executable(); err == nil {
+		c := exec.Command(self, "rec-reverse", fn, tier, fmt.Sprint(seed))
+		c.Stderr = os.Stderr
+		if o, err := c.Output(); err == nil {
+			for _, line := range strings.Split(string(o), "\n") {
+				p := strings.Split(line, "\t")
+				if len(p) != 2 {
+					continue
+				}
+				b, _ := hex.DecodeString(strings.TrimPrefix(p[0], "-"))
+				s := string(b)
+				if p[0] == "-" {
+					s = ""
+				}
+				if want, ok := e.first[s]; ok && want != p[1] {
+					diff++
+					fmt.Fprintf(out, "%s\t%s\t%s\t%s\n", fn, hx(s), want, p[1]+" (fresh process, reverse order)")
+				}
+			}
+		} else {
+			fmt.Fprintln(os.Stderr, "rec-reverse failed:", err)
+			os.Exit(3)
+		}
+	}
+	// FIRST-call verdicts: inputs grouped by what a recognizer could plausibly key a memo on (the text before the first ':' or
+	// '@', the text after the last '@'); a few members of every group are evaluated as the very first call of a fresh process
+	// each and compared with the verdict they got in the long-running process above
+	groups := map[string]int{}
+	var picks []string
+	for _, s := range e.order {
+		key := ""
+		if i := strings.IndexAny(s, ":@"); i > 0 && i < 24 {
+			key = "p:" + s[:i]
+		} else if i := strings.LastIndexByte(s, '@'); i >= 0 && len(s)-i < 40 {
+			key = "s:" + s[i:]
+		} else {
+			continue
+		}
+		if groups[key] < 4 && len(picks) < 6000 && len(s) < 200 {
+			groups[key]++
+			picks = append(picks, s)
+		}
+	}
+	if self, err := os.Executable(); err == nil {
+		res := make([]string, len(picks))
+		var wg sync.WaitGroup
+		sem := make(chan struct{}, 16)
+		for i, s := range picks {
+			wg.Add(1)
+			go func(i int, s string) {
+				defer wg.Done()
+				sem <- struct{}{}
+				defer func() { <-sem }()
+				h := hx(s)
+				o, err := exec.Command(self, "rec-one", fn, h).Output()
+				if err == nil {
+					f := strings.Fields(strings.TrimSpace(string(o)))
+					if len(f) > 0 {
+						res[i] = f[len(f)-1]
+					}
+				}
+			}(i, s)
+		}
+		wg.Wait()
+		fresh := 0
+		for i, s := range picks {
+			if res[i] == "" {
+				continue
+			}
+			fresh++
+			if res[i] != e.first[s] {
+				diff++
+				fmt.Fprintf(out, "%s\t%s\t%s\t%s\n", fn, hx(s), res[i]+" (as the first call of a fresh process)", e.first[s]+" (in the long-running process)")
+			}
+		}
+		fmt.Fprintf(out, "summary-fresh\t%s\t%d\t0\n", fn, fresh)
+	}
 	fmt.Fprintf(out, "summary\t%s\t%d\t%d\n", fn, len(e.order), diff)
+}
+
+// recReverse: the inputs of `rec-twice`, evaluated in reverse generation order (run as a child process)
+func recReverse(fn, tier string, seed int64) {
+	rng := rand.New(rand.NewSource(seed))
+	e := &emitter{fn: fn, seen: map[string]bool{}, noEval: true}
+	runGen(e, fn, rng, tier == "thorough")
+	for i := len(e.order) - 1; i >= 0; i-- {
+		fmt.Fprintf(out, "%s\t%s\n", hx(e.order[i]), implRec(fn, e.order[i]))
+	}
 }
 
 func recMain(fn, tier string, seed int64) {
@@ -378,7 +476,14 @@ func genURL(e *emitter, rng *rand.Rand, thorough bool) {
 	}
 	seps := []string{":", ":/", "://", "", "//", ":///", "::", ":/ /", ": //", ";//"}
 	tails := []string{"", "example.com", "example.com/path?q=1#f", "ex ample", "ex\tample", "ex\x7fample", "\x00", "x\n", "é", "\xff\xfe", "[::1]:80/"}
+	// (sorted: the generation order must not depend on Go's randomised map iteration — recognizers that learn from
+	// earlier calls are only exposed when the first occurrence of a spelling is reproducible)
+	var candList []string
 	for c := range cands {
+		candList = append(candList, c)
+	}
+	sort.Strings(candList)
+	for _, c := range candList {
 		for _, sep := range seps {
 			e.emit(c + sep)
 			for _, t := range tails {
